@@ -97,8 +97,7 @@ def run(ctx):
             if conf == 'layers':
                 for layer in circ.layers_forward():
                     layer.compile(N)
-                # model: compile then drop the circuit-level maps is not available; compare only against the oracle
-                a = None
+                ctx.drv.ask('circ %s compilelayers' % a)
             if conf == 'recompiled':
                 lay = CU.impl_layers(circ)
             if conf.endswith('compiled'):
